@@ -89,7 +89,7 @@ CLAIMED["C04"] = dict(
 
 CLAIMED["C01"] = dict(
     engine="P", technique="end-to-end differential property testing: generated bridge compiled by the real proc macro and called through the generated C headers with generated argument vectors (gcc, ASan+UBSan)",
-    text="Generated programs over the documented type grammar with generated call vectors; Rust bodies log arguments bit-exactly and return drawn values, a generated C driver calls through the generated headers. Every call must reach Rust exactly once with the drawn arguments and return exactly the drawn value (incl. Option/Result arm and raw is_ok byte, write-out strings into Rust-owned and fixed caller buffers, &mut slice mutation); callback arguments (C function + heap data + destructor) must observe the values Rust passes, Rust must receive what they answer, and each destructor must run exactly once; a third of the programs carry abi_renames; struct/enum layouts and result sizes seen by C must equal those rustc gives the macro's output; primitive/pointer/view parameter types in prototypes must be the documented spellings. Exploration.",
+    text="Generated programs over the documented type grammar with generated call vectors; Rust bodies log arguments bit-exactly and return drawn values, a generated C driver calls through the generated headers. Every call must reach Rust exactly once with the drawn arguments and return exactly the drawn value (incl. Option/Result arm and raw is_ok byte, write-out strings into Rust-owned and fixed caller buffers, &mut slice mutation); callback arguments (C function + heap data + destructor) must observe the values Rust passes, Rust must receive what they answer, and each destructor must run exactly once; a bridged trait (vtable of C function pointers over scalars, an enum, a by-value struct and Options) is implemented in C and called by Rust, every value in both directions checked against a model; a third of the programs carry abi_renames; struct/enum layouts and result sizes seen by C must equal those rustc gives the macro's output; primitive/pointer/view parameter types in prototypes must be the documented spellings. Exploration.",
     note="Trusted: gcc 12 / clang 14 (-O0 and -O2, chosen per program), rustc, the canonical value serialisers on the three sides (Python expectation, Rust logger, C printer). x86-64 SysV only.",
     ref="DESIGN.md §2 C01")
 CLAIMED["C10"] = dict(
